@@ -176,7 +176,8 @@ func hasNotone(n *pnode) bool {
 
 func domainOK(n *pnode, u bool) bool {
 	return inDomain(n, false, false) && !hasNotone(n) && !hasPoisonClassItem(n) && len(surrogateRunOffenders(n, u)) == 0 && !hasCountedGroup(n) &&
-		!hasLoopBeforeNonBoundary(n) && !hasNegClassEscape(n)
+		!hasLoopBeforeNonBoundary(n) && !hasNegClassEscape(n) && !hasPoisonLiteral(n) &&
+		!fixNonBoundary(n, new(bool), false) && !fixLoneNegEscBranch(n, false) && !(hasAlt(n) && fixCasePairClass(n, false))
 }
 
 func hasCountedGroup(n *pnode) bool {
@@ -702,6 +703,14 @@ type gctx struct{ inRepeat, optional bool }
 
 func (g *caseGen) lit() *pnode {
 	r := g.alphaChar()
+	// regexp2 v2.5.2 loses a literal surrogate code unit / U+FFFF wherever it is not the very first thing searched
+	// ("\\d+\\udfff" never matches: known finding C20-regexp2-surrogate-literal-run): patterns carry none; subjects do.
+	for try := 0; runPoison(r) && try < 8; try++ {
+		r = g.alphaChar()
+	}
+	if runPoison(r) {
+		r = 'b'
+	}
 	g.feat[litFeature(r)] = true
 	return &pnode{k: nLit, r: r, spell: g.spell(r)}
 }
@@ -973,6 +982,124 @@ func hasLoopBeforeNonBoundary(n *pnode) bool {
 	return false
 }
 
+// fixNonBoundary (fix=true) / check (fix=false): regexp2 v2.5.2 makes loops of non-word characters atomic when \B follows,
+// also through groups and after coalescing "x?x" into a loop (known finding C20-regexp2-nonboundary-atomic-loop):
+// \B never comes after a quantifier in print order. Returns true when an offending \B was found.
+func fixNonBoundary(n *pnode, seenQuant *bool, fix bool) bool {
+	found := false
+	switch n.k {
+	case nQuant:
+		*seenQuant = true
+	case nAssert:
+		if n.esc == 'B' && *seenQuant {
+			found = true
+			if fix {
+				n.esc = 'b'
+			}
+		}
+	}
+	for _, k := range n.kids {
+		if fixNonBoundary(k, seenQuant, fix) {
+			found = true
+		}
+	}
+	return found
+}
+
+// soleAtom returns the single unquantified atom an alternative consists of (through sequences and non-capturing groups).
+func soleAtom(n *pnode) *pnode {
+	switch n.k {
+	case nSeq:
+		if len(n.kids) == 1 {
+			return soleAtom(n.kids[0])
+		}
+		return nil
+	case nGroup:
+		return soleAtom(n.kids[0])
+	case nEsc, nLit, nClass, nDot:
+		return n
+	}
+	return nil
+}
+
+// fixLoneNegEscBranch: regexp2 v2.5.2 merges single-character alternatives into one set and loses members when one of them
+// is \D / \W / \S ("\\D|k|k" does not match "k": known finding C20-regexp2-class-notdigit). No alternative is a lone \D \W \S.
+func fixLoneNegEscBranch(n *pnode, fix bool) bool {
+	found := false
+	if n.k == nAlt {
+		for i, k := range n.kids {
+			if a := soleAtom(k); a != nil && (a.k == nEsc && (a.esc == 'D' || a.esc == 'W' || a.esc == 'S') || a.k == nDot || a.k == nClass && a.neg) {
+				found = true
+				if fix {
+					n.kids[i] = &pnode{k: nSeq, kids: []*pnode{k, {k: nQuant, min: 0, max: 1, kids: []*pnode{{k: nLit, r: 'q'}}}}}
+				}
+			}
+		}
+	}
+	for _, k := range n.kids {
+		if fixLoneNegEscBranch(k, fix) {
+			found = true
+		}
+	}
+	return found
+}
+
+func swapCase(r rune) rune {
+	if u := unicode.ToUpper(r); u != r {
+		return u
+	}
+	return unicode.ToLower(r)
+}
+
+// fixCasePairClass: Go's regexp/syntax turns the class [Bb] into a case-folded literal and then factors it with a
+// neighbouring alternative that starts with the plain literal B: /B|[Bb]c/ never matches "bc" (known finding
+// C20-go-regexp-alternation-fold-prefix, Go standard library 1.23-1.25). In patterns with an alternation no class is exactly a case pair.
+func fixCasePairClass(n *pnode, fix bool) bool {
+	found := false
+	if n.k == nClass && !n.neg && len(n.items) >= 2 {
+		set := map[rune]bool{}
+		ok := true
+		for _, it := range n.items {
+			if it.esc != 0 || it.lo != it.hi {
+				ok = false
+				break
+			}
+			set[it.lo] = true
+		}
+		if ok && len(set) == 2 {
+			var a rune
+			for c := range set {
+				a = c
+				break
+			}
+			if b := swapCase(a); b != a && set[b] {
+				found = true
+				if fix {
+					n.items = append(n.items, classItem{lo: '#', hi: '#'})
+				}
+			}
+		}
+	}
+	for _, k := range n.kids {
+		if fixCasePairClass(k, fix) {
+			found = true
+		}
+	}
+	return found
+}
+
+func hasPoisonLiteral(n *pnode) bool {
+	if n.k == nLit && runPoison(n.r) {
+		return true
+	}
+	for _, k := range n.kids {
+		if hasPoisonLiteral(k) {
+			return true
+		}
+	}
+	return false
+}
+
 func hasNegClassEscape(n *pnode) bool {
 	if n.k == nClass {
 		for _, it := range n.items {
@@ -1054,6 +1181,12 @@ func (g *caseGen) pattern() *pnode {
 	g.fixNotone(p)
 	g.fixSurrogateRuns(p)
 	limitNesting(p, false)
+	seen := false
+	fixNonBoundary(p, &seen, true)
+	fixLoneNegEscBranch(p, true)
+	if hasAlt(p) {
+		fixCasePairClass(p, true)
+	}
 	return p
 }
 
